@@ -153,6 +153,23 @@ def check_property_file(prop):
     }
 
 
+def run_coqchk(prop, files):
+    """thorough tier: re-check the compiled property files and everything they depend on with the independent checker;
+    -o prints the axioms of the whole context"""
+    mods = ' '.join('CC.' + f[:-2].replace('/', '.') for f in files)
+    rc, out = sh(f'timeout 3000 coqchk -silent -o -Q . CC {mods} 2>&1', 3100, cwd=COQ)
+    axioms = []
+    m = re.search(r'\* Axioms:(.*?)\n\s*\n\* ', out, flags=re.S)
+    if m:
+        axioms = [a.strip() for a in re.findall(r'^\s+([A-Za-z_][A-Za-z0-9_.\']*)', m.group(1), flags=re.M) if a.strip() != '<none>']
+    def short(a):
+        return a.split('.')[-2] + '.' + a.split('.')[-1] if a.count('.') >= 1 else a
+    foreign = [a for a in axioms if not any(a.endswith(w.split('.')[-1]) for w in WHITELIST_AXIOMS)]
+    unsafe = [l.strip() for l in out.split('\n') if ('type-in-type' in l or 'unsafe' in l or 'positivity is assumed' in l) and '<none>' not in l]
+    return {'ok': rc == 0 and not foreign and not unsafe, 'exit': rc, 'axioms': axioms, 'foreign_axioms': foreign, 'unsafe': unsafe,
+            'tail': out[-600:]}
+
+
 # ------------------------------------------------------------------ token codec (mirrors Model/Codec.v)
 def t_label(s):
     cps = [ord(c) for c in s]
@@ -384,6 +401,12 @@ def standard_prologue(ctx):
                       kind='obligation')
     pr = check_property_file(ctx.prop)
     ctx.proof = pr
+    if ctx.tier == 'thorough' and pr['ok']:
+        ck = run_coqchk(ctx.prop, pr.get('files', []))
+        ctx.extra['coqchk'] = ck
+        if not ck['ok']:
+            ctx.violation('proof:coqchk:' + ctx.prop, 'the independent checker coqchk rejects the compiled property files or reports an axiom outside '
+                          'the whitelist', {'obligation': 'coqchk', 'report': ck}, kind='obligation')
     if not pr['ok']:
         ctx.violation('proof:' + ctx.prop, f'Properties/{ctx.prop}.v no longer checks (or uses a non-whitelisted axiom)',
                       {'obligation': f'Properties/{ctx.prop}.v', 'foreign_axioms': pr['foreign_axioms'], 'log': pr['log']},
